@@ -221,6 +221,9 @@ pub struct ZipOpts {
     pub data_descriptor: bool,
     pub method: u16,
     pub central_dir: bool,
+    /// 0 = none; 1..=4: 32-bit size fields masked with 0xFFFFFFFF and a Zip64 extended
+    /// information record (id 0x0001) of 16 / 8 / 24 / 28 data bytes in front of the extra field
+    pub zip64: u8,
 }
 
 pub fn gen_zip_opts(dna: &mut Dna) -> ZipOpts {
@@ -239,6 +242,7 @@ pub fn gen_zip_opts(dna: &mut Dna) -> ZipOpts {
         data_descriptor: dna.chance(30),
         method: 8,
         central_dir: dna.chance(50),
+        zip64: if dna.chance(12) { dna.range(1, 4) as u8 } else { 0 },
     }
 }
 
@@ -272,7 +276,33 @@ pub fn wrap_zip(out: &mut Vec<u8>, o: &ZipOpts, stream: &[u8], plain: &[u8], m: 
             _ => name.push(safe_junk_byte(m)),
         }
     }
-    let extra: Vec<u8> = (0..o.extra_len).map(|_| m.u8()).collect();
+    let mut extra: Vec<u8> = (0..o.extra_len).map(|_| m.u8()).collect();
+    let zip64 = if o.data_descriptor { 0 } else { o.zip64 };
+    if zip64 != 0 {
+        // Zip64 extended information: uncompressed size, compressed size [, header offset [, disk]]
+        let mut rec: Vec<u8> = vec![0x01, 0x00];
+        let data_len: u16 = [16, 8, 24, 28][(zip64 - 1) as usize % 4];
+        rec.extend_from_slice(&data_len.to_le_bytes());
+        rec.extend_from_slice(&(plain.len() as u64).to_le_bytes());
+        if data_len >= 16 {
+            rec.extend_from_slice(&((stream.len() + o.pad) as u64).to_le_bytes());
+        }
+        if data_len >= 24 {
+            rec.extend_from_slice(&(hdr_off as u64).to_le_bytes());
+        }
+        if data_len >= 28 {
+            rec.extend_from_slice(&0u32.to_le_bytes());
+        }
+        if m.chance(30) {
+            // another well-formed record in front (extended timestamp, 5 data bytes)
+            let mut ts: Vec<u8> = vec![0x55, 0x54, 5, 0, 1];
+            ts.extend_from_slice(&[m.u8(), m.u8(), m.u8(), m.u8()]);
+            ts.extend_from_slice(&rec);
+            rec = ts;
+        }
+        rec.extend_from_slice(&extra);
+        extra = rec;
+    }
     let flag: u16 = if o.data_descriptor { 8 } else { 0 };
     out.extend_from_slice(&0x04034b50u32.to_le_bytes());
     out.extend_from_slice(&20u16.to_le_bytes());
@@ -283,8 +313,17 @@ pub fn wrap_zip(out: &mut Vec<u8>, o: &ZipOpts, stream: &[u8], plain: &[u8], m: 
         out.extend_from_slice(&[0; 12]);
     } else {
         out.extend_from_slice(&crc.to_le_bytes());
-        out.extend_from_slice(&((stream.len() + o.pad) as u32).to_le_bytes());
-        out.extend_from_slice(&(plain.len() as u32).to_le_bytes());
+        if zip64 == 2 {
+            // only the uncompressed size is moved to the Zip64 record
+            out.extend_from_slice(&((stream.len() + o.pad) as u32).to_le_bytes());
+            out.extend_from_slice(&0xFFFF_FFFFu32.to_le_bytes());
+        } else if zip64 != 0 {
+            out.extend_from_slice(&0xFFFF_FFFFu32.to_le_bytes());
+            out.extend_from_slice(&0xFFFF_FFFFu32.to_le_bytes());
+        } else {
+            out.extend_from_slice(&((stream.len() + o.pad) as u32).to_le_bytes());
+            out.extend_from_slice(&(plain.len() as u32).to_le_bytes());
+        }
     }
     out.extend_from_slice(&(name.len() as u16).to_le_bytes());
     out.extend_from_slice(&(extra.len() as u16).to_le_bytes());
